@@ -24,7 +24,7 @@ CAUSES = {
 
 CAUSES["C02"] = [
     (("types/int_then_float", "types/float_in_branch", "types/float_in_loop", "types/aug_float", "types/aug_truediv",
-      "types/global_int_loop_float", "types/global_acc_float"),
+      "types/global_int_loop_float", "types/global_acc_float", "types/param_copy_rebound", "types/param_rebound_in_branch"),
      "the first assignment fixes the C type: a name first bound to an int keeps `int` when a float is assigned later (value truncated)"),
     (("types/branch_first_int",), "a variable hoisted out of if/else takes the type of the first branch (int) although the other branch assigns a float"),
     (("types/int_div_result", "types/local_float"), "the result of int / int is inferred as int (Python: float)"),
@@ -65,6 +65,11 @@ CAUSES["C06"] = [
     (("compile/feature/try_except_as", "compile/feature/try_except_named"), "`except SomeError:` is emitted as `catch (SomeError &)` with no such C++ type"),
     (("compile/feature/undeclared_receiver",), "a method call on a name that was never declared as a device emits undeclared state variables"),
 ]
+
+
+CAUSES["C06"].append((("compile/types/param_two_sites",),
+                      "a helper called with an int and with a float literal is emitted as int/float overloads; the call with a "
+                      "double literal (`scale(0.5)`) is then ambiguous in C++ and the sketch does not compile"))
 
 
 CAUSES["C09"] = [
